@@ -161,7 +161,8 @@ def run(R, replay=None):
               "bandit subprocess in {real run, exit 0/1/2/3, killed by SIGKILL/SIGTERM, executable missing, interrupted by ^C} x outcome of each "
               "repo.head.reset in {ok, GitCommandError, OSError} x output format; HEAD, branch, working tree, temporary directory "
               "and exit status observed after bandit-baseline returns and compared with the BaselineTool model and with the "
-              "statement; plus the refusal preconditions; non-trivial = every scenario")
+              "statement; plus the refusal preconditions; non-trivial = every scenario"
+              "; files at the old name of a file the current commit renamed")
     base = os.path.join(impl.scratch(), "c20")
     os.makedirs(base, exist_ok=True)
     shimdir = os.path.join(base, "shim")
